@@ -5,11 +5,13 @@
    depth cap) equality is "same normal form": reflexive, symmetric, transitive, and equal values
    hash alike -- for nodes whose cached hashes are coherent (0 or the computed hash), which is
    the state the library maintains; (3) the unrestricted reflexivity statement is refuted at
-   the depth cap (finding K10).  Sets, maps, external values and history-independence are
-   carried by the correspondence check + oracles (all pairs/triples/histories). *)
+   the depth cap (finding K10); (4) history independence on the same fragment: computing and caching the
+   hash of either or both operands never changes the answer of an equality query.  Sets, maps, external
+   values, and histories of lookups / string fetches are carried by the correspondence check + oracles
+   (all pairs/triples/histories). *)
 From Coq Require Import ZArith NArith List Bool.
 From Coq.Floats Require Import SpecFloat.
-From Verif Require Import Lanes Common Values Floats Equality EqBasics EqEquiv Configs.
+From Verif Require Import Lanes Common Values Floats Equality EqBasics EqEquiv Configs History.
 Import ListNotations.
 
 Section C07.
@@ -47,6 +49,14 @@ Theorem C07_equal_values_hash_alike_partial : forall a b,
   equal c xe a b = true -> hash_value c xh a = hash_value c xh b.
 Proof. exact (equal_same_hash c xe xh). Qed.
 
+(* history independence: hashing (and thereby caching the hash of) either or both operands first does not
+   change the answer *)
+Theorem C07_equal_unchanged_by_hashing_partial : forall a b,
+  simple c a -> coherent c xh a -> coherent c xh b ->
+  equal c xe (hash_cache c xh a) (hash_cache c xh b) = equal c xe a b /\
+  equal c xe (hash_cache c xh a) b = equal c xe a b /\ equal c xe a (hash_cache c xh b) = equal c xe a b.
+Proof. exact (equal_after_hashing c xe xh). Qed.
+
 (* equality is exactly "same normal form" on the fragment *)
 Theorem C07_equal_iff_same_normal_form_partial : forall f a b va,
   nf c f a = Some va -> cache_ok c xh f a -> cache_ok c xh f b ->
@@ -66,9 +76,11 @@ Example C07_fragment_inhabited :
                            mk (VTagged [] (mk (VKeyword None []) 0 0)) 0 0]) 0 0).
 Proof. eexists. vm_compute. reflexivity. Qed.
 
+Print Assumptions C07_equal_unchanged_by_hashing_partial.
 Print Assumptions C07_metadata_not_in_equality.
 Print Assumptions C07_metadata_not_in_hash.
 Print Assumptions C07_nan_and_zeros.
+Print Assumptions C07_equal_unchanged_by_hashing_partial.
 Print Assumptions C07_equivalence_partial.
 Print Assumptions C07_equal_values_hash_alike_partial.
 Print Assumptions C07_reflexive_refuted.
